@@ -47,7 +47,12 @@ where
         expr: v1beta0::Expression,
     ) -> Result<v1beta0::Expression, crate::reduce::Error> {
         match expr {
-            v1beta0::Expression::EvalCompiler(op) => Ok(self.reduce_op(*op)?),
+            v1beta0::Expression::EvalCompiler(op) => {
+                // operands that were just applied are still wrapped as parameters;
+                // fold them before the compiler looks at them
+                let op = crate::reduce::Apply::reduce(*op)?;
+                Ok(self.reduce_op(op)?)
+            }
             _ => Ok(expr),
         }
     }
